@@ -141,6 +141,71 @@ pub fn build_sfnt(disk: &Disk) -> Vec<u8> {
     out
 }
 
+const WOFF2_KNOWN_TAGS: [&[u8; 4]; 63] = [
+    b"cmap", b"head", b"hhea", b"hmtx", b"maxp", b"name", b"OS/2", b"post", b"cvt ", b"fpgm", b"glyf",
+    b"loca", b"prep", b"CFF ", b"VORG", b"EBDT", b"EBLC", b"gasp", b"hdmx", b"kern", b"LTSH", b"PCLT",
+    b"VDMX", b"vhea", b"vmtx", b"BASE", b"GDEF", b"GPOS", b"GSUB", b"EBSC", b"JSTF", b"MATH", b"CBDT",
+    b"CBLC", b"COLR", b"CPAL", b"SVG ", b"sbix", b"acnt", b"avar", b"bdat", b"bloc", b"bsln", b"cvar",
+    b"fdsc", b"feat", b"fmtx", b"fvar", b"gvar", b"hsty", b"just", b"lcar", b"mort", b"morx", b"opbd",
+    b"prop", b"trak", b"Zapf", b"Silf", b"Glat", b"Gloc", b"Feat", b"Sill",
+];
+
+fn push_base128(out: &mut Vec<u8>, v: u32) {
+    let mut started = false;
+    for shift in [28u32, 21, 14, 7] {
+        let b = ((v >> shift) & 0x7f) as u8;
+        if b != 0 || started {
+            out.push(b | 0x80);
+            started = true;
+        }
+    }
+    out.push((v & 0x7f) as u8);
+}
+
+/// Wrap the disk model as a WOFF2 file: null transforms for every table (glyf/loca transform
+/// version 3), the table data block emitted as stored brotli meta-blocks. A minimal encoder so
+/// that any corpus font (e.g. the variable ones) can be served by the real `Woff2TableProvider`.
+pub fn build_woff2(disk: &Disk) -> Vec<u8> {
+    let n = disk.tables.len();
+    let mut dir = Vec::new();
+    let mut raw = Vec::new();
+    let mut sfnt_size = 12 + 16 * n;
+    for (tag, data) in &disk.tables {
+        let tb = tag.to_be_bytes();
+        let idx = WOFF2_KNOWN_TAGS.iter().position(|k| **k == tb);
+        let version: u8 = if &tb == b"glyf" || &tb == b"loca" { 3 } else { 0 };
+        match idx {
+            Some(i) => dir.push((version << 6) | i as u8),
+            None => {
+                dir.push((version << 6) | 0x3f);
+                dir.extend_from_slice(&tb);
+            }
+        }
+        push_base128(&mut dir, data.len() as u32);
+        raw.extend_from_slice(data);
+        sfnt_size += (data.len() + 3) / 4 * 4;
+    }
+    let stored = brotli_stored(&raw);
+    let mut out = Vec::with_capacity(48 + dir.len() + stored.len() + 4);
+    out.extend_from_slice(&WOF2.to_be_bytes());
+    out.extend_from_slice(&disk.flavour.to_be_bytes());
+    out.extend_from_slice(&0u32.to_be_bytes()); // length, patched below
+    out.extend_from_slice(&(n as u16).to_be_bytes());
+    out.extend_from_slice(&0u16.to_be_bytes()); // reserved
+    out.extend_from_slice(&(sfnt_size as u32).to_be_bytes());
+    out.extend_from_slice(&(stored.len() as u32).to_be_bytes());
+    out.extend_from_slice(&[0, 1, 0, 0]); // major/minor version
+    out.extend_from_slice(&[0; 20]); // meta / private: none
+    out.extend_from_slice(&dir);
+    out.extend_from_slice(&stored);
+    while out.len() % 4 != 0 {
+        out.push(0);
+    }
+    let total = out.len() as u32;
+    out[8..12].copy_from_slice(&total.to_be_bytes());
+    out
+}
+
 /// Apply a byte-level fault to a buffer. Returns false when the fault does not fit (no change).
 pub fn apply_bytes(buf: &mut Vec<u8>, f: &Fault) -> bool {
     match f {
